@@ -13,7 +13,7 @@ use serde_json::json;
 use std::collections::{BTreeMap, BTreeSet};
 use std::time::Instant;
 
-const DIRS: &[&str] = &["", "", "", "pkg", "pkg/deep", "lib v2", "lib [v2]", "Ünï", "a.b", "pkg/deep/er", "target", "build", "tests", "src", ".cfg", "_gen", "srcx", "arch.mamba", "w\\in"];
+const DIRS: &[&str] = &["", "", "", "pkg", "pkg/deep", "lib v2", "lib [v2]", "Ünï", "a.b", "pkg/deep/er", "target", "build", "tests", "src", ".cfg", "_gen", "srcx", "arch.mamba", "w\\in", "a/b/c/d/e"];
 const BASES: &[&str] = &["alpha", "beta", "my file", "v1.2", "Ünï", "UPPER", "9lives", "x-y", "m_1", "zed", "ALPHA", "__init__", "a+b", ".hidden", "_private", "a b c", "très", "target", "src", "x.mamba.bak", "back\\slash"];
 const EXT_MODULES: &[(&str, &[&str])] = &[("ipaddress", &["IPv4Address", "IPv6Address", "ip_network", "IPv4Network"]), ("decimal", &["Decimal", "Inexact", "Rounded"]), ("pathlib", &["Path", "PurePath", "PosixPath"])];
 const ROOTS: &[&str] = &["proj", "proj", "my proj", "prøj", "p.r.o.j", "P1"];
@@ -221,7 +221,7 @@ fn gen_project(rng: &mut Rng, fenced: &BTreeSet<String>, builtins: &BTreeSet<Str
         }
     }
     let mut bystanders = vec![];
-    for (p, t) in [("README.txt", "not a mamba file\n"), ("pkg/data.json", "{}\n"), ("notes.mamba.bak", "def x := $\n"), ("script.py", "print('bystander')\n"), ("pkg/x.mambax", "class\n"), ("mamba", "def q := $\n")] {
+    for (p, t) in [("README.txt", "not a mamba file\n"), ("pkg/data.json", "{}\n"), ("notes.mamba.bak", "def x := $\n"), ("script.py", "print('bystander')\n"), ("pkg/x.mambax", "class\n"), ("mamba", "def q := $\n"), ("pkg/UP.MAMBA", "class\n"), ("mamba.d/readme", "x\n")] {
         if rng.chance(1, 3) {
             bystanders.push(SrcFile { path: p.to_string(), text: t.to_string() });
         }
